@@ -50,8 +50,7 @@ RULE = ('Configuration grid reconnection on/off x reconnection_attempts '
         'suspended) - no effort may follow; a connect_error handler that '
         'raises at its j-th invocation during the effort - the effort goes '
         'on.'
-        ' The judged connection can be preceded by an earlier life of the same client object that the server ended (optionally with a failing disconnect handler).'
-        ' A reconnection attempt can also be accepted and then closed by the server (engine.io CLOSE) before connect() has returned: no further attempt.')
+        ' The judged connection can be preceded by an earlier life of the same client object that the server ended (optionally with a failing disconnect handler).')
 ASSUMPTIONS = [
     'waiting is observed through the wait primitives, never by wall clock',
     '"retries until success" is checked as bounded safety (finite patterns; '
@@ -115,7 +114,7 @@ def strategy(tier):
         'outcomes': st.lists(st.sampled_from(['fail', 'fail', 'refuse',
                                               'drop', 'drop_after',
                                               'drop_inverted', 'ok',
-                                              'kicked', 'closed']),
+                                              'kicked']),
                              max_size=8),
         'abort_at': st.one_of(st.none(), st.none(), st.integers(1, 6)),
         'second_loss': st.booleans(), 'manual': st.booleans(),
